@@ -26,6 +26,9 @@
 (*   "calls"    every call graph over vcl_recv + 3 subroutines (2^9 edge   *)
 (*              sets) x 1..MaxReq requests: recursion is cut by the guard  *)
 (*   "include"  every include graph over main + 2 modules                  *)
+(*   "request"  method x path x query x header classes x four programs     *)
+(*              that take the request apart (URL parts, query string       *)
+(*              functions, regular expressions, cookies / sub-fields)      *)
 (***************************************************************************)
 EXTENDS Integers, Sequences, FiniteSets, TLC, Json, BuiltinsTable
 
@@ -146,6 +149,12 @@ IncludeCells == { [k |-> "include", edges |-> {<<e[1], e[2]>> : e \in E}, cyclic
 PredictInclude(c) == IF c.cyclic THEN "error"
                      ELSE IF \E n \in Mods : Cardinality({e \in c.edges : e[2] = n}) > 1 THEN "any" ELSE "value"
 
+(* requests: method x path x query x header classes x a program that inspects the request (ServeHTTP path) *)
+RequestCells == { [k |-> "request", method |-> m, path |-> p, query |-> q, headers |-> h, prog |-> g]
+                    : m \in {"GET", "POST", "PURGE", "WEIRD"}, p \in {"root", "deep", "long", "nonascii", "encoded"},
+                      q \in {"none", "empty", "dup", "long", "odd"}, h \in {"none", "plain", "dup", "empty", "long", "evil", "nonascii"},
+                      g \in {"echo", "query", "regex", "cookie"} }
+
 -----------------------------------------------------------------------------
 VARIABLES phase, item
 vars == <<phase, item>>
@@ -156,13 +165,15 @@ Keys == CASE Mode = "assign"  -> {<<vt, op>> : vt \in LeftTypes, op \in Ops}
           [] Mode = "builtin-full" -> {<<i, 0>> : i \in 1..Len(Builtins)}
           [] Mode = "calls"   -> {<<n, 0>> : n \in 1..MaxReq}
           [] Mode = "include" -> {<<0, 0>>}
+          [] Mode = "request" -> {<<g, 0>> : g \in {"echo", "query", "regex", "cookie"}}
 Fam(key) ==
   CASE Mode = "assign"  -> AssignFam(key[1], key[2])
     [] Mode \in {"builtin", "builtin-full"} -> BuiltinFam(key[1], Mode = "builtin-full")
     [] Mode = "calls"   -> {c \in CallCells : c.nreq = key[1]}
     [] Mode = "include" -> IncludeCells
+    [] Mode = "request" -> {c \in RequestCells : c.prog = key[1]}
 Predict(c) == CASE c.k = "assign" -> PredictAssign(c) [] c.k = "builtin" -> "any" [] c.k = "calls" -> PredictCalls(c)
-                [] c.k = "include" -> PredictInclude(c)
+                [] c.k = "include" -> PredictInclude(c) [] c.k = "request" -> "any"
 
 Init == phase = "part" /\ item \in Keys
 Next == phase = "part" /\ \E c \in Fam(item) : item' = c /\ phase' = "emit"
